@@ -170,21 +170,23 @@ class Case:
         w = self.w
         self.keys = [w.get_key()] if self.kind == 'single' else w.get_keys(number_of_keys=rng.randrange(1, 4))
         self.utxos = {}
+        addr_of = {}
         palette = [300, 546, 1000, 1001, 5000, 5000, 20000, 100000, 100000, 10 ** 6, 10 ** 8, 21 * 10 ** 8]
         for j in range(rng.randrange(2, 10)):
             key = rng.choice(self.keys)
             val = rng.choice(palette)
             conf = rng.choice([0, 1, 1, 3, 6, 6, 6])
             txid = '%064x' % rng.getrandbits(250)
-            n = rng.randrange(3)
+            n = rng.choice([0, 1, 2, 3, 6])
             if self.utxos and rng.random() < 0.35:
                 # another output of a transaction the wallet already knows (same confirmations)
                 (ptx, pn), pv = rng.choice(sorted(self.utxos.items()))
-                free = [x for x in range(4) if (ptx, x) not in self.utxos]
+                free = [x for x in range(8) if (ptx, x) not in self.utxos]
                 if free:
                     txid, n, conf = ptx, rng.choice(free), pv[1]
             w.utxo_add(key.address, val, txid, n, confirmations=conf)
             self.utxos[(txid, n)] = [val, conf, False]
+            addr_of[(txid, n)] = key.address
         # one spent output (for the invalid explicit lists)
         self.spent = None
         if rng.random() < 0.5 and not w.multisig:
@@ -200,6 +202,13 @@ class Case:
                             self.utxos[(t.txid, o.output_n)] = [o.value, 0, False]
             except Exception:
                 pass
+            # the provider still lists what this wallet has just spent (an unconfirmed spend): a refresh must not make it spendable again
+            if self.spent and rng.random() < 0.6:
+                for (ptx, pn), pv in sorted(self.utxos.items()):
+                    if pv[2] and (ptx, pn) in addr_of:
+                        w.utxo_add(addr_of[(ptx, pn)], pv[0], ptx, pn, confirmations=pv[1])
+                        ctx_count = getattr(self.ctx, 'count')
+                        ctx_count('refresh-lists-spent-outpoint')
         self.net = w.network
         self.netstr = '%d-%d-%d' % (self.net.dust_amount, self.net.fee_min, self.net.fee_max)
 
